@@ -13,6 +13,7 @@ their unsigned bit pattern, bool `0|1`, char as scalar value, String / Vec<u8> a
   `deser <kind> <Tag> <args hex> [reply=<ty>:<val>]` → `ok <Tag> <vals>[ reply=<hex>]` | `err` | `panic`
   `const chunk|defaultmax`              → value
   `checklen <len> <max>`                → `ok <n>` | `err <kind>`
+  `newstream`                           → `ok` (starts the group of `encframe`s a `frames` op reads back)
   `encframe <payload hex>`              → frame hex
   `frames max=<m> chunks=<sizes> stream=<hex> dec=<payload:canon|payload:!|…>`
                                         → `whole=<res,…>@<consumed> split=<res,…>@<consumed> maxreq= reads= sumreq=`
@@ -287,6 +288,7 @@ def step (st : St) (op impl : String) : St × StepOut :=
         | .error e => s!"err {showErr e}"
       (st, { model := m, nontrivial := true })
     | _, _ => (st, { model := "bad-op" })
+  | ["newstream"] => ({ st with frames := [], framesImpl := [] }, { model := "ok" })
   | ["encframe", h] =>
     match unhex? h with
     | some p =>
